@@ -31,7 +31,7 @@ PID = 'C03'
 def designs_for(ctx):
   quick = ctx.tier == 'quick'
   return (eng.directed_designs(ctx) + sv.stdlib_designs(ctx.tier) + sv.testcase_designs() +
-          eng.gen_designs(ctx, 110 if quick else 1500))
+          eng.gen_designs(ctx, 110 if quick else 800))
 
 def summarize(ctx, results):
   feats = collections.Counter()
@@ -51,12 +51,50 @@ def summarize(ctx, results):
       ctx.sample({'design': r.d.name, 'kind': r.d.kind, 'backend': r.backend, 'cycles': len(r.trace),
                   'first_cycle': {'in': r.trace[0][0], 'out': r.trace[0][1]}, 'emitted_tail': r.text[-300:]})
 
+def static_acceptors(ctx, results):
+  """where theorem C03_selfdet_eq_ctx applies: the acceptor sv_uniform (every assignment: target as wide as the right-hand
+  side, every context-sensitive operator with operands of one width) and sv_lits_fit (every sized literal fits its width)
+  are evaluated by Coq on every parsed text; the counts go to the evidence (information, not a verdict)"""
+  live = [r for r in results if r.status in ('ok', 'bad') and r.case]
+  if not live: return
+  nonuni = ctx.coq_bad_indices('uni', sv.SV_IMPORTS, sv.SV_DEFS, 'file * ident * list cyc', [r.case for r in live], "let '(F, _, _) := c in sv_uniform F", shard=12, jobs=14)
+  nofit = ctx.coq_bad_indices('fit', sv.SV_IMPORTS, sv.SV_DEFS, 'file * ident * list cyc', [r.case for r in live], "let '(F, _, _) := c in sv_lits_fit F", shard=12, jobs=14)
+  ctx.extra['sv_uniform'] = {'texts': len(live), 'all_assignments_uniform': len(live) - len(nonuni), 'not_uniform_examples': [live[i].d.name for i in nonuni[:8]],
+                             'agreeing_but_not_uniform': sum(1 for i in nonuni if live[i].status == 'ok')}
+  ctx.extra['sv_lits_fit'] = {'texts': len(live), 'all_literals_fit': len(live) - len(nofit), 'with_truncated_literal': [live[i].d.name for i in nofit[:8]],
+                              'disagreeing_among_them': sum(1 for i in nofit if live[i].status == 'bad')}
+
 def run(ctx):
   setup_impl_path()
-  ncyc = 16 if ctx.tier == 'quick' else 40
+  ncyc = 16 if ctx.tier == "quick" else 30
   results = eng.run_backend(ctx, PID, BACKEND, designs_for(ctx), ncyc, {})
   summarize(ctx, results)
+  static_acceptors(ctx, results)
   return results
+
+def replay(ctx, rec, pid=PID, backend=BACKEND):
+  """./check C03 --replay replays/C03-xxxx.json : rebuild the recorded design, run it through the same pipeline, print the verdict"""
+  setup_impl_path()
+  import sched_common as sc
+  rp = rec.get('replay', {})
+  name, src, kind = rp.get('design'), rp.get('design_source'), rp.get('kind')
+  if kind in ('gen', 'directed', 'flat') and src:
+    cls, _ = sc.load_source(ctx, src, name)
+    d = sv.Design(name, cls, source=src, kind=kind)
+  else:
+    pool = {x.name: x for x in sv.stdlib_designs('thorough') + sv.testcase_designs()}
+    if name not in pool:
+      print(f'cannot rebuild design {name}'); return 2
+    d = pool[name]
+  cyc = rp.get('inputs_all_cycles')
+  r = eng.prepare(ctx, d, rp.get('backend', backend), len(cyc) if cyc else 16, ctx.seed, {})
+  print('status after translate/parse:', r.status, r.detail[:300])
+  if r.syntax is not None: print('not SystemVerilog:', r.syntax)
+  if r.status == 'ok':
+    eng.evaluate(ctx, [r], 'replay')
+    print('Coq replay of the emitted text against the pymtl3 trace:', 'agrees' if r.status == 'ok' else eng.parse_why(r))
+  shutil.rmtree(ctx.scratch, ignore_errors=True)
+  return 0 if r.status == 'ok' and r.syntax is None else 1
 
 def main(ctx):
   ctx.trusted += [
@@ -77,4 +115,5 @@ def main(ctx):
   except Exception as e:
     ctx.violation(f'{PID}:harness-crash', f'correspondence could not run: {e!r}', {'traceback': traceback.format_exc()}, found_input=False)
   return ctx.finish(rule='designs = directed minimal designs (constant-sub-expression shapes, sext/reduce of operator expressions, controls) + stdlib RTL components at several parameters (registers, mux/demux, arithmetic, register files, arbiters, encoder, crossbar, 3 queue families x 3 kinds, ChecksumRTL) + the DUTs of pymtl3\'s own translation test-case catalogue + random translatable designs (harness/sv_gen.py); each simulated with random inputs, translated, parsed, replayed inside Coq; distinct = (design, hash of emitted text)',
-                    level='proof')
+                    level='proof',
+                    explanation='proof over the modelled SystemVerilog subset (our formalisation of IEEE 1800 sizing / assignment / always semantics and the certified single-driver acceptor) + translation validation of the real emitted text per design and input sequence; not a proof about the translator for all designs')
